@@ -885,4 +885,5 @@ if __name__ == "__main__":
     repo = sys.argv[1] if len(sys.argv) > 1 else "/repo"
     here = os.path.dirname(os.path.abspath(__file__))
     outdir = sys.argv[2] if len(sys.argv) > 2 else os.path.join(here, "lean", "Flipdot", "Generated")
-    print(json.dumps(translate(repo, outdir), indent=1))
+    import translate as _self  # one copy of TranslateError, shared with translate_ctrl
+    print(json.dumps(_self.translate(repo, outdir), indent=1))
